@@ -170,6 +170,7 @@ def _run_generated(case):
                 viol.append(V("aldy-exception:" + str(e)[:40], planted=names, message=str(e)[:300]))
                 return viol, "exception"
         sols = [s for v in res.values() for s in v]
+        best, opt = None, None
         # clause 1: is the planted structure an optimal explanation of the measured region depths?
         if rec["cn_model"]:
             cm = rec["cn_model"][0]
@@ -200,6 +201,17 @@ def _run_generated(case):
             if car != planted_vars:
                 lost = planted_vars - car
                 added = car - planted_vars
+                s_struct = tuple(sorted(s.major_solution.cn_solution.solution.elements()))
+                if (best and s_struct != struct and s_struct in best and best[s_struct][0] <= opt + 1e-6 and planted_major in reported
+                        and s.score <= min(x.score for x in sols) + 1e-6):
+                    # recorded finding KF-STRUCTTIE: ANOTHER structure explains the region depths exactly as well as the planted one
+                    # (independent enumerator), the planted combination is reported too, and this best solution is fitted to the
+                    # other structure - site counts are normalised by the site's own total, so a variant present on every copy fits
+                    # any copy number there and the alleles of the other structure carry fewer / other variants at zero error
+                    viol.append(V("KF-STRUCTTIE:best-solution-under-a-tied-other-structure-carries-other-variants", planted=names,
+                                  planted_structure=struct, other_structure=s_struct, diplotype=s.get_minor_diplotype(),
+                                  lost=[str(m) for m in lost.elements()][:6], added=[str(m) for m in added.elements()][:6]))
+                    continue
                 dk = kinds_of(list(lost) + list(added))
                 regs = sorted({(gene.region_at(m[0]) or (0, "?"))[1][:1] for m in list(lost) + list(added)})
                 viol.append(V("variant-multiset:" + ("lost" if lost else "") + ("added" if added else "") + ":" + "+".join(sorted(dk)),
